@@ -13,6 +13,8 @@ import (
 	"bytes"
 	"context"
 	"fmt"
+	"path/filepath"
+	"strings"
 	"sync"
 	"time"
 
@@ -407,6 +409,10 @@ func (e *c09Env) bookkeeping(kind string, dmap string) {
 }
 
 func c09Child(ctx *runCtx, spec string) {
+	if strings.HasPrefix(spec, "revive ") {
+		c09ReviveChild(ctx, spec)
+		return
+	}
 	var n, r, workers, share, of int
 	var p uint64
 	var ts uint64 = 1 << 20
@@ -483,7 +489,20 @@ func c09Run(ctx *runCtx) int {
 			batch{Spec: "N=3 R=2 P=7 workers=4 share=0/1 ts=8192 hist=1", Timeout: 20 * time.Minute},
 			batch{Spec: "N=3 R=1 P=3 workers=8 share=0/1 ts=4096 hist=1", Timeout: 20 * time.Minute})
 	}
+	rr := 40
+	if ctx.tier == "thorough" {
+		rr = 400
+	}
+	// the stress batches run after the time-judged ones, not next to them
+	stress := []batch{
+		{Spec: fmt.Sprintf("revive N=2 R=2 workers=64 rounds=%d seed=%d", rr, ctx.seed*100+70), Timeout: 20 * time.Minute},
+		{Spec: fmt.Sprintf("revive N=3 R=1 workers=48 rounds=%d seed=%d", rr, ctx.seed*100+71), Timeout: 20 * time.Minute}}
 	runBatches(ctx, batches, 2, func(b batch, res batchResult, tail string) {
+		ctx.rep.Violate("c09|member-crashed-or-hung", fmt.Sprintf("child %s died (exit %d timeout=%v): %s", b.Spec, res.ExitCode, res.TimedOut, lastLines(tail, 12)), map[string]interface{}{"batch": b.Spec})
+	})
+	sctx := *ctx
+	sctx.outDir = filepath.Join(ctx.outDir, "stress")
+	runBatches(&sctx, stress, 2, func(b batch, res batchResult, tail string) {
 		ctx.rep.Violate("c09|member-crashed-or-hung", fmt.Sprintf("child %s died (exit %d timeout=%v): %s", b.Spec, res.ExitCode, res.TimedOut, lastLines(tail, 12)), map[string]interface{}{"batch": b.Spec})
 	})
 	return ctx.rep.Finish(50)
